@@ -42,90 +42,80 @@ unsigned verif_ghost_i, verif_ghost_j;   /* ghost row / column */
 #define SMALL_ARR_K(k, c, b) IS_INT_UPTO((c).m_data[k], b)
 #define SMALL_ARR(c, b) VERIF_ALL(DIMS_IN, SMALL_ARR_K, c, b)
 
-/* sum_k a[i][k] * b[k][j], in exact integer arithmetic, for inner dimension up to 5 */
-#define DOT_K(k, a, b, i, j) (L((a)->m_elems[i][k]) * L((b)->m_elems[k][j]))
-#define DOT2(a, b, i, j) (DOT_K(0, a, b, i, j) + DOT_K(1, a, b, i, j))
-#define DOT3(a, b, i, j) (DOT2(a, b, i, j) + DOT_K(2, a, b, i, j))
-#define DOT4(a, b, i, j) (DOT3(a, b, i, j) + DOT_K(3, a, b, i, j))
-#define DOT5(a, b, i, j) (DOT4(a, b, i, j) + DOT_K(4, a, b, i, j))
+/* sum_k a[i][k] * b[k][j] accumulated from 0 in index order, IN THE SCALAR TYPE T -- the textbook definition of the
+ * product with the summation order fixed.  Stated this way the contract holds for every value of T (all floats,
+ * all ints modulo 2^w), not only on the small-integer sub-domain; the lemmas (T = unsigned) relate different summation
+ * orders as ring identities. */
+#define TERM(k, a, b, i, j) ((a)->m_elems[i][k] * (b)->m_elems[k][j])
+#define SUM2(a, b, i, j) (((AT)0 + TERM(0, a, b, i, j)) + TERM(1, a, b, i, j))
+#define SUM3(a, b, i, j) (SUM2(a, b, i, j) + TERM(2, a, b, i, j))
+#define SUM4(a, b, i, j) (SUM3(a, b, i, j) + TERM(3, a, b, i, j))
+#define SUM5(a, b, i, j) (SUM4(a, b, i, j) + TERM(4, a, b, i, j))
 #if DIMS_IN == 1
-#define DOT_N1(a, b, i, j) DOT2(a, b, i, j)
+#define SUM_N1(a, b, i, j) SUM2(a, b, i, j)
 #elif DIMS_IN == 2
-#define DOT_N1(a, b, i, j) DOT3(a, b, i, j)
+#define SUM_N1(a, b, i, j) SUM3(a, b, i, j)
 #elif DIMS_IN == 3
-#define DOT_N1(a, b, i, j) DOT4(a, b, i, j)
+#define SUM_N1(a, b, i, j) SUM4(a, b, i, j)
 #elif DIMS_IN == 4
-#define DOT_N1(a, b, i, j) DOT5(a, b, i, j)
+#define SUM_N1(a, b, i, j) SUM5(a, b, i, j)
 #endif
 
-/* "all entries are small integers": quantifier-free over the (<= 5 x 5) shape via two ghost indices is not
- * enough for a precondition, so preconditions are imposed by the harnesses entry by entry (assumes), and each
- * contract's requires only restates the bound for the ghost entry it talks about. */
-
 /* matrix<N,N+1>::operator*(matrix<N+1,1>) : (A r)_i = sum_k A_ik r_k */
+/* (stated for every row with CONCRETE indices: a ghost row index would turn the comparison into an equivalence check of
+ * different multiplier circuits, which SAT does not finish for floats) */
+#define MULA_ROW(i, r, self, o) __CPROVER_equal((r).m_elems[i][0], (AT)SUM_N1(self, o, i, 0))
 #define CONTRACT_mat_mul_a(self, o) \
-  __CPROVER_requires(verif_ghost_i < DIMS_IN && SMALL_MAT_N_N1(self, AFF_MAX) && SMALL_VEC_N1(o, AFF_VMAX)) \
-  __CPROVER_ensures(L(__CPROVER_return_value.m_elems[verif_ghost_i][0]) == DOT_N1(self, o, verif_ghost_i, 0) && \
-                    __CPROVER_return_value.m_elems[verif_ghost_i][0] == (AT)L(__CPROVER_return_value.m_elems[verif_ghost_i][0])) \
+  __CPROVER_ensures(VERIF_ALL(DIMS_IN, MULA_ROW, __CPROVER_return_value, self, o)) \
   __CPROVER_assigns()
 /* matrix<N+1,N+1>::operator*(matrix<N+1,N+1>) */
+#define MULB_ELT(j, r, self, o, i) __CPROVER_equal((r).m_elems[i][j], (AT)SUM_N1(self, o, i, j))
+#define MULB_ROW(i, r, self, o) VERIF_ALLB(N1_LIT, MULB_ELT, r, self, o, i)
 #define CONTRACT_mat_mul_b(self, o) \
-  __CPROVER_requires(verif_ghost_i < N1 && verif_ghost_j < N1 && SMALL_MAT_N1_N1(self, AFF_MAX) && SMALL_MAT_N1_N1(o, AFF_MAX)) \
-  __CPROVER_ensures(L(__CPROVER_return_value.m_elems[verif_ghost_i][verif_ghost_j]) == DOT_N1(self, o, verif_ghost_i, verif_ghost_j) && \
-                    __CPROVER_return_value.m_elems[verif_ghost_i][verif_ghost_j] == (AT)L(__CPROVER_return_value.m_elems[verif_ghost_i][verif_ghost_j])) \
+  __CPROVER_ensures(VERIF_ALL(N1_LIT, MULB_ROW, __CPROVER_return_value, self, o)) \
   __CPROVER_assigns()
 
 /* matrix<N,N+1>::identity(): ones on the diagonal, zeros elsewhere (incl. the translation column) */
 #define CONTRACT_mat_identity() \
   __CPROVER_requires(verif_ghost_i < DIMS_IN && verif_ghost_j < N1) \
-  __CPROVER_ensures(__CPROVER_return_value.m_elems[verif_ghost_i][verif_ghost_j] == ((verif_ghost_i == verif_ghost_j) ? (AT)1 : (AT)0)) \
+  __CPROVER_ensures(__CPROVER_equal(__CPROVER_return_value.m_elems[verif_ghost_i][verif_ghost_j], ((verif_ghost_i == verif_ghost_j) ? (AT)1 : (AT)0))) \
   __CPROVER_assigns()
 
-/* affine::operator*(vector): (A*v)_i = sum_{j<N} A_ij v_j + A_iN */
-#define AFF_APPLY_K(k, A, v, i) (L((A)->m_elems[i][k]) * L((v)->m_elems[k][0]))
-#if DIMS_IN == 1
-#define AFF_APPLY(A, v, i) (AFF_APPLY_K(0, A, v, i) + L((A)->m_elems[i][1]))
-#elif DIMS_IN == 2
-#define AFF_APPLY(A, v, i) (AFF_APPLY_K(0, A, v, i) + AFF_APPLY_K(1, A, v, i) + L((A)->m_elems[i][2]))
-#elif DIMS_IN == 3
-#define AFF_APPLY(A, v, i) (AFF_APPLY_K(0, A, v, i) + AFF_APPLY_K(1, A, v, i) + AFF_APPLY_K(2, A, v, i) + L((A)->m_elems[i][3]))
-#elif DIMS_IN == 4
-#define AFF_APPLY(A, v, i) (AFF_APPLY_K(0, A, v, i) + AFF_APPLY_K(1, A, v, i) + AFF_APPLY_K(2, A, v, i) + AFF_APPLY_K(3, A, v, i) + L((A)->m_elems[i][4]))
-#endif
+/* affine::operator*(vector): (A*v)_i = sum_{j<N} A_ij v_j + A_iN * 1 (homogeneous coordinate), same summation order */
+#define ATERM(k, A, v, i) ((A)->m_elems[i][k] * (v)->m_elems[k][0])
+#define ASUM1(A, v, i) ((AT)0 + ATERM(0, A, v, i))
+#define ASUM2(A, v, i) (ASUM1(A, v, i) + ATERM(1, A, v, i))
+#define ASUM3(A, v, i) (ASUM2(A, v, i) + ATERM(2, A, v, i))
+#define ASUM4(A, v, i) (ASUM3(A, v, i) + ATERM(3, A, v, i))
+#define AFF_APPLY(A, v, i) (VERIF_CAT(ASUM, DIMS_IN)(A, v, i) + (A)->m_elems[i][DIMS_IN] * (AT)1)
+#define APPLY_ROW(i, r, self, v) __CPROVER_equal((r).m_elems[i][0], (AT)AFF_APPLY(self, v, i))
 #define CONTRACT_affine_apply(self, v) \
-  __CPROVER_requires(verif_ghost_i < DIMS_IN && SMALL_MAT_N_N1(self, AFF_MAX) && SMALL_VEC_N(v, AFF_VMAX)) \
-  __CPROVER_ensures(L(__CPROVER_return_value.m_elems[verif_ghost_i][0]) == AFF_APPLY(self, v, verif_ghost_i) && \
-                    __CPROVER_return_value.m_elems[verif_ghost_i][0] == (AT)L(__CPROVER_return_value.m_elems[verif_ghost_i][0])) \
+  __CPROVER_ensures(VERIF_ALL(DIMS_IN, APPLY_ROW, __CPROVER_return_value, self, v)) \
   __CPROVER_assigns()
 
-/* affine::operator*(affine): (A*B)_ij = sum_{k<N} A_ik B_kj + (j == N ? A_iN : 0)   -- "apply B, then A" */
-#define AFF_MUL_K(k, A, B, i, j) (L((A)->m_elems[i][k]) * L((B)->m_elems[k][j]))
-#if DIMS_IN == 1
-#define AFF_MUL_SUM(A, B, i, j) (AFF_MUL_K(0, A, B, i, j))
-#elif DIMS_IN == 2
-#define AFF_MUL_SUM(A, B, i, j) (AFF_MUL_K(0, A, B, i, j) + AFF_MUL_K(1, A, B, i, j))
-#elif DIMS_IN == 3
-#define AFF_MUL_SUM(A, B, i, j) (AFF_MUL_K(0, A, B, i, j) + AFF_MUL_K(1, A, B, i, j) + AFF_MUL_K(2, A, B, i, j))
-#elif DIMS_IN == 4
-#define AFF_MUL_SUM(A, B, i, j) (AFF_MUL_K(0, A, B, i, j) + AFF_MUL_K(1, A, B, i, j) + AFF_MUL_K(2, A, B, i, j) + AFF_MUL_K(3, A, B, i, j))
-#endif
+/* affine::operator*(affine): (A*B)_ij = sum_{k<N} A_ik B_kj + A_iN * (j == N ? 1 : 0)   -- "apply B, then A" */
+#define MTERM(k, A, B, i, j) ((A)->m_elems[i][k] * (B)->m_elems[k][j])
+#define MSUM1(A, B, i, j) ((AT)0 + MTERM(0, A, B, i, j))
+#define MSUM2(A, B, i, j) (MSUM1(A, B, i, j) + MTERM(1, A, B, i, j))
+#define MSUM3(A, B, i, j) (MSUM2(A, B, i, j) + MTERM(2, A, B, i, j))
+#define MSUM4(A, B, i, j) (MSUM3(A, B, i, j) + MTERM(3, A, B, i, j))
+#define AFF_MUL(A, B, i, j) (VERIF_CAT(MSUM, DIMS_IN)(A, B, i, j) + (A)->m_elems[i][DIMS_IN] * ((j) == DIMS_IN ? (AT)1 : (AT)0))
+#define AMUL_ELT(j, r, self, m, i) __CPROVER_equal((r).m_elems[i][j], (AT)AFF_MUL(self, m, i, j))
+#define AMUL_ROW(i, r, self, m) VERIF_ALLB(N1_LIT, AMUL_ELT, r, self, m, i)
 #define CONTRACT_affine_mul(self, m) \
-  __CPROVER_requires(verif_ghost_i < DIMS_IN && verif_ghost_j < N1 && SMALL_MAT_N_N1(self, AFF_MAX) && SMALL_MAT_N_N1(m, AFF_MAX)) \
-  __CPROVER_ensures(L(__CPROVER_return_value.m_elems[verif_ghost_i][verif_ghost_j]) == \
-                    AFF_MUL_SUM(self, m, verif_ghost_i, verif_ghost_j) + (verif_ghost_j == DIMS_IN ? L((self)->m_elems[verif_ghost_i][DIMS_IN]) : 0) && \
-                    __CPROVER_return_value.m_elems[verif_ghost_i][verif_ghost_j] == (AT)L(__CPROVER_return_value.m_elems[verif_ghost_i][verif_ghost_j])) \
+  __CPROVER_ensures(VERIF_ALL(DIMS_IN, AMUL_ROW, __CPROVER_return_value, self, m)) \
   __CPROVER_assigns()
 
 /* translation(t): identity with t in the last column; scaling(s): diag(s), zero translation */
 #define CONTRACT_affine_translation(args) \
   __CPROVER_requires(verif_ghost_i < DIMS_IN && verif_ghost_j < N1) \
-  __CPROVER_ensures(__CPROVER_return_value.m_elems[verif_ghost_i][verif_ghost_j] == \
-                    (verif_ghost_j == DIMS_IN ? (args).m_data[verif_ghost_i] : (verif_ghost_i == verif_ghost_j ? (AT)1 : (AT)0))) \
+  __CPROVER_ensures(__CPROVER_equal(__CPROVER_return_value.m_elems[verif_ghost_i][verif_ghost_j], \
+                    (verif_ghost_j == DIMS_IN ? (args).m_data[verif_ghost_i] : (verif_ghost_i == verif_ghost_j ? (AT)1 : (AT)0)))) \
   __CPROVER_assigns()
 #define CONTRACT_affine_scaling(args) \
   __CPROVER_requires(verif_ghost_i < DIMS_IN && verif_ghost_j < N1) \
-  __CPROVER_ensures(__CPROVER_return_value.m_elems[verif_ghost_i][verif_ghost_j] == \
-                    (verif_ghost_i == verif_ghost_j ? (args).m_data[verif_ghost_i] : (AT)0)) \
+  __CPROVER_ensures(__CPROVER_equal(__CPROVER_return_value.m_elems[verif_ghost_i][verif_ghost_j], \
+                    (verif_ghost_i == verif_ghost_j ? (args).m_data[verif_ghost_i] : (AT)0))) \
   __CPROVER_assigns()
 
 /* the affine layer's lookup: the backend is queried exactly once at A x + t */
@@ -133,20 +123,16 @@ typedef struct { MAT_N_N1 m_transform; } AFFINE_SELF_T;
 #define IN_SCALAR_T AT
 #define B_IN_SCALAR_T AT
 #include "layer_common.h"
+#define CTERM(k, self, c, i) ((self)->m_transform.m_elems[i][k] * (c).m_data[k])
+#define CSUM1(self, c, i) ((AT)0 + CTERM(0, self, c, i))
+#define CSUM2(self, c, i) (CSUM1(self, c, i) + CTERM(1, self, c, i))
+#define CSUM3(self, c, i) (CSUM2(self, c, i) + CTERM(2, self, c, i))
+#define CSUM4(self, c, i) (CSUM3(self, c, i) + CTERM(3, self, c, i))
+#define AFF_AT(self, c, i) (VERIF_CAT(CSUM, DIMS_IN)(self, c, i) + (self)->m_transform.m_elems[i][DIMS_IN] * (AT)1)
+#define AT_ROW(i, a, self, c) __CPROVER_equal((a).m_data[i], (AT)AFF_AT(self, c, i))
 #define CONTRACT_affine_at(self, c) \
-  __CPROVER_requires(verif_ghost_i < DIMS_IN && SMALL_MAT_N_N1(&(self)->m_transform, AFF_MAX) && SMALL_ARR(c, AFF_VMAX) && verif_b_calls == 0) \
+  __CPROVER_requires(verif_b_calls == 0) \
   __CPROVER_ensures(verif_b_calls == 1) \
-  __CPROVER_ensures(L(verif_b_arg[0].m_data[verif_ghost_i]) == AFF_AT(self, c, verif_ghost_i) && \
-                    verif_b_arg[0].m_data[verif_ghost_i] == (AT)L(verif_b_arg[0].m_data[verif_ghost_i])) \
+  __CPROVER_ensures(VERIF_ALL(DIMS_IN, AT_ROW, verif_b_arg[0], self, c)) \
   __CPROVER_ensures(OUT_EQ(__CPROVER_return_value, verif_b_result)) \
   __CPROVER_assigns(VERIF_B_GHOSTS)
-#define AFF_AT_K(k, self, c, i) (L((self)->m_transform.m_elems[i][k]) * L((c).m_data[k]))
-#if DIMS_IN == 1
-#define AFF_AT(self, c, i) (AFF_AT_K(0, self, c, i) + L((self)->m_transform.m_elems[i][1]))
-#elif DIMS_IN == 2
-#define AFF_AT(self, c, i) (AFF_AT_K(0, self, c, i) + AFF_AT_K(1, self, c, i) + L((self)->m_transform.m_elems[i][2]))
-#elif DIMS_IN == 3
-#define AFF_AT(self, c, i) (AFF_AT_K(0, self, c, i) + AFF_AT_K(1, self, c, i) + AFF_AT_K(2, self, c, i) + L((self)->m_transform.m_elems[i][3]))
-#elif DIMS_IN == 4
-#define AFF_AT(self, c, i) (AFF_AT_K(0, self, c, i) + AFF_AT_K(1, self, c, i) + AFF_AT_K(2, self, c, i) + AFF_AT_K(3, self, c, i) + L((self)->m_transform.m_elems[i][4]))
-#endif
